@@ -318,6 +318,11 @@ type concProbe struct {
 }
 
 func (p *concProbe) Open(ctx context.Context) error {
+	// a new materialisation: the provider starts over
+	p.cursor.Store(0)
+	p.calls.Store(0)
+	p.parked.Store(false)
+	p.closed.Store(false)
 	p.log.add(fmt.Sprintf("o%d", p.log.g()))
 	p.opened.Store(true)
 	return nil
@@ -389,28 +394,31 @@ func (p *concProbe) Emit(ctx context.Context) (int, error) {
 // case description
 
 type concCase struct {
-	op     string
-	c      int   // concurrency
-	n      int   // source length
-	size   int   // Buffered size
-	sync   bool  // choices in quiescent states only
-	mg     bool  // mapper / concurrent-consume callback gated
-	cg     bool  // sequential consumer callback gated
-	sg     bool  // source Emit gated
-	yield  int   // slow source
-	limit  int   // Limit(k) wrapper (0 = none)
-	first  bool  // FindFirst
-	cf     int   // sequential consumer fails on its k-th call (1-based, 0 = never)
-	mf     int   // mapper (or concurrent-consume callback) fails for element i (-1 = never)
-	mp     int   // mapper (or concurrent-consume callback) panics for element i (-1 = never)
-	se     int   // source Emit call index that fails (-1 = never)
-	park   int   // source Emit call index that parks until ctx.Done (-1 = never)
-	cancel int   // cancel the caller ctx before the t-th scheduler action (-1 = never)
-	reads  int   // pipe: chunks the consumer reads before returning (-1 = to EOF)
-	filt   string // "" | "d7": gated Filter that cancels inside its 2nd call (D7/D24 recipe)
-	trials int   // repeat the (racy) case this many times and count outcomes
-	script []int
-	child  bool // run in a re-exec'd child process (the case may crash the process)
+	op       string
+	c        int    // concurrency
+	n        int    // source length
+	size     int    // Buffered size
+	sync     bool   // choices in quiescent states only
+	mg       bool   // mapper / concurrent-consume callback gated
+	cg       bool   // sequential consumer callback gated
+	sg       bool   // source Emit gated
+	yield    int    // slow source
+	limit    int    // Limit(k) wrapper (0 = none)
+	first    bool   // FindFirst
+	cf       int    // sequential consumer fails on its k-th call (1-based, 0 = never)
+	mf       int    // mapper (or concurrent-consume callback) fails for element i (-1 = never)
+	mp       int    // mapper (or concurrent-consume callback) panics for element i (-1 = never)
+	se       int    // source Emit call index that fails (-1 = never)
+	park     int    // source Emit call index that parks until ctx.Done (-1 = never)
+	cancel   int    // cancel the caller ctx before the t-th scheduler action (-1 = never)
+	reads    int    // pipe: chunks the consumer reads before returning (-1 = to EOF)
+	filt     string // "" | "d7": gated Filter that cancels inside its 2nd call (D7/D24 recipe)
+	trials   int    // repeat the (racy) case this many times and count outcomes
+	script   []int
+	child    bool   // run in a re-exec'd child process (the case may crash the process)
+	ofail    string // "" | "err" | "panic": a lifecycle element placed AFTER the async stage whose Open fails
+	rep      int    // materialise the SAME stream value this many times (>= 1)
+	lastfull bool   // the last materialisation runs without early stop / failure / cancel / park: it must deliver everything
 }
 
 func parseConcCase(text string) (*concCase, error) {
@@ -418,7 +426,7 @@ func parseConcCase(text string) (*concCase, error) {
 	if len(f) == 0 {
 		return nil, fmt.Errorf("empty case")
 	}
-	cc := &concCase{op: f[0], c: 1, size: 2, sync: true, mf: -1, mp: -1, se: -1, park: -1, cancel: -1, reads: -1, trials: 1}
+	cc := &concCase{op: f[0], c: 1, size: 2, sync: true, mf: -1, mp: -1, se: -1, park: -1, cancel: -1, reads: -1, trials: 1, rep: 1}
 	for _, kv := range f[1:] {
 		k, v, ok := strings.Cut(kv, "=")
 		if !ok {
@@ -466,6 +474,15 @@ func parseConcCase(text string) (*concCase, error) {
 			cc.trials = atoi()
 		case "child":
 			cc.child = v == "1"
+		case "ofail":
+			cc.ofail = v
+		case "lastfull":
+			cc.lastfull = v == "1"
+		case "rep":
+			cc.rep = atoi()
+			if cc.rep < 1 {
+				cc.rep = 1
+			}
 		case "script":
 			if v != "-" {
 				for _, t := range strings.Split(v, ",") {
@@ -516,6 +533,8 @@ type concRun struct {
 	ctx      context.Context
 	cancel   context.CancelFunc
 	ignore   map[uint64]bool
+	base     *stream.Stream[int] // the stream value shared by all materialisations of the case
+	lastFrom int                 // index in deliv where the last (full) materialisation starts
 }
 
 type concResult struct {
@@ -612,9 +631,48 @@ func (r *concRun) d7Filter(v int) bool {
 	return false
 }
 
-func (r *concRun) build() func() error {
+func (r *concRun) failingOpen() stream.Lifecycle {
+	return stream.NewLifecycle(func(ctx context.Context) error {
+		if r.cc.ofail == "panic" {
+			panic(errConcUser)
+		}
+		return errConcUser
+	}, nil)
+}
+
+// baseStream builds (once per case) the stream value up to and including the asynchronous stage and the optional
+// failing lifecycle element; every materialisation of the case uses this same value.
+func (r *concRun) baseStream() stream.Stream[int] {
+	if r.base != nil {
+		return *r.base
+	}
 	cc := r.cc
 	src := stream.NewStream[int](r.src)
+	cmap := func(s stream.Stream[int]) stream.Stream[int] {
+		return stream.MapWithErrAndCtx(s, r.mapper, stream.WithConcurrentMapOption(cc.c))
+	}
+	var b stream.Stream[int]
+	switch cc.op {
+	case "cmap":
+		b = cmap(src)
+	case "buf":
+		b = stream.Buffered(src, cc.size)
+	case "nest":
+		b = stream.Buffered(cmap(src), cc.size)
+	default:
+		b = src
+	}
+	if cc.ofail != "" && cc.op != "ccons" && cc.op != "pipe" {
+		b = b.WithAdditionalLifecycle(r.failingOpen())
+	}
+	r.base = &b
+	return b
+}
+
+func (r *concRun) build() func() error {
+	cc := r.cc
+	base := r.baseStream()
+	// wrappers with state of their own (Limit counts in a captured variable) are rebuilt for every materialisation
 	wrap := func(s stream.Stream[int]) stream.Stream[int] {
 		if cc.filt == "d7" {
 			s = s.Filter(r.d7Filter)
@@ -627,26 +685,17 @@ func (r *concRun) build() func() error {
 		}
 		return s
 	}
-	cmap := func(s stream.Stream[int]) stream.Stream[int] {
-		return stream.MapWithErrAndCtx(s, r.mapper, stream.WithConcurrentMapOption(cc.c))
-	}
 	switch cc.op {
-	case "cmap":
-		s := wrap(cmap(src))
-		return func() error { return s.ConsumeWithErrAndCtx(r.ctx, r.seqConsumer) }
-	case "buf":
-		s := wrap(stream.Buffered(src, cc.size))
-		return func() error { return s.ConsumeWithErrAndCtx(r.ctx, r.seqConsumer) }
-	case "nest":
-		s := wrap(stream.Buffered(cmap(src), cc.size))
+	case "cmap", "buf", "nest":
+		s := wrap(base)
 		return func() error { return s.ConsumeWithErrAndCtx(r.ctx, r.seqConsumer) }
 	case "ccons":
 		return func() error {
-			return src.ConsumeWithErrAndCtx(r.ctx, r.concConsumer, stream.WithConcurrentConsumeOption(cc.c))
+			return base.ConsumeWithErrAndCtx(r.ctx, r.concConsumer, stream.WithConcurrentConsumeOption(cc.c))
 		}
 	case "pipe":
 		return func() error {
-			_, err := jsonstream.StreamJsonAsReaderAndReturn(r.ctx, src, func(ctx context.Context, rd io.Reader) (int, error) {
+			_, err := jsonstream.StreamJsonAsReaderAndReturn(r.ctx, base, func(ctx context.Context, rd io.Reader) (int, error) {
 				buf := make([]byte, 1<<16)
 				if cc.reads < 0 {
 					total := 0
@@ -685,17 +734,19 @@ func (r *concRun) build() func() error {
 }
 
 type concObs struct {
-	res    string
-	deliv  []int
-	maxIn  int
-	calls  []int
-	trace  []string
-	plog   string
-	leak   int
-	hang   string
-	flags  string
-	emits  int
-	closes int
+	res     string
+	deliv   []int
+	maxIn   int
+	calls   []int
+	trace   []string
+	plog    string
+	leak    int
+	hang    string
+	flags   string
+	emits   int
+	closes  int
+	lastdel []int
+	hasLast bool
 }
 
 func fmtInts(l []int) string {
@@ -718,38 +769,45 @@ func (o concObs) String() string {
 	if hang == "" {
 		hang = "-"
 	}
-	return fmt.Sprintf("res=%s del=%s maxin=%d calls=%s emits=%d closes=%d flags=%s leak=%d hang=%s trace=%s plog=%s",
-		o.res, fmtInts(o.deliv), o.maxIn, fmtInts(o.calls), o.emits, o.closes, o.flags, o.leak, hang, tr, o.plog)
+	last := ""
+	if o.hasLast {
+		last = " lastdel=" + fmtInts(o.lastdel)
+	}
+	return fmt.Sprintf("res=%s del=%s maxin=%d calls=%s emits=%d closes=%d flags=%s leak=%d hang=%s%s trace=%s plog=%s",
+		o.res, fmtInts(o.deliv), o.maxIn, fmtInts(o.calls), o.emits, o.closes, o.flags, o.leak, hang, last, tr, o.plog)
 }
 
-func concRunOnce(cc *concCase) concObs {
+// after this many hangs in one process the remaining cases are not run any more (a tree on which every case spins
+// would otherwise take minutes per property); the skipped cases are reported as hangs
+var concHangs atomic.Int32
+
+const concMaxHangs = 6
+
+// materialise runs the terminal once on the case's (shared) stream value under the scripted scheduler and returns
+// the result class; trace / hang are appended to obs.
+func (r *concRun) materialise(root context.Context, rootCancel context.CancelFunc, obs *concObs) string {
 	const watchdog = 3 * time.Second
-	base := concScan(nil) // goroutines left over by earlier cases (only after a reported leak) are ignored
-	r := &concRun{cc: cc, log: &concLog{}, mgate: newConcGate(), cgate: newConcGate(), ignore: base.ids}
-	r.src = &concProbe{n: cc.n, log: r.log, parkAt: cc.park, errAt: cc.se, yield: cc.yield}
-	if cc.sg {
-		r.src.gate = newConcGate()
-	}
-	root, rootCancel := context.WithCancel(context.Background())
-	defer rootCancel()
+	cc := r.cc
 	r.ctx, r.cancel = context.WithCancel(root)
+	r.filtCall = 0
+	r.cbCalls = 0
 	term := r.build()
 	done := make(chan concResult, 1)
 	started := make(chan struct{})
 	go concRunner(term, started, done)
 	<-started
 
-	var obs concObs
 	var result *concResult
 	cancelled := false
 	spins := 0
+	hang := ""
 	for step := 0; result == nil; {
 		var snap concSnap
 		if cc.sync {
 			var ok bool
 			snap, ok = concSettle(r.ignore, watchdog)
 			if !ok {
-				obs.hang = "settle"
+				hang = "settle"
 				break
 			}
 		}
@@ -793,11 +851,11 @@ func concRunOnce(cc *concCase) concObs {
 					result = &res
 				case <-time.After(50 * time.Microsecond):
 					spins++
-					if spins > 100000 {
-						obs.hang = "free"
+					if spins > 60000 {
+						hang = "free"
 					}
 				}
-				if obs.hang != "" {
+				if hang != "" {
 					break
 				}
 				continue
@@ -808,9 +866,9 @@ func concRunOnce(cc *concCase) concObs {
 				case res := <-done:
 					result = &res
 				case <-time.After(watchdog):
-					obs.hang = "done"
+					hang = "done"
 				}
-				if obs.hang != "" {
+				if hang != "" {
 					break
 				}
 				continue
@@ -827,7 +885,7 @@ func concRunOnce(cc *concCase) concObs {
 				}
 				continue
 			}
-			obs.hang = "deadlock" // everything is blocked, nothing is parked on the environment
+			hang = "deadlock" // everything is blocked, nothing is parked on the environment
 			if os.Getenv("VERIF_CONC_DEBUG") != "" {
 				buf := make([]byte, 1<<20)
 				n := runtime.Stack(buf, true)
@@ -858,8 +916,12 @@ func concRunOnce(cc *concCase) concObs {
 		}
 		step++
 	}
+	if hang != "" {
+		obs.hang = hang
+	}
 	if result == nil {
 		// rescue: cancel everything so that the process can go on, and say so
+		concHangs.Add(1)
 		rootCancel()
 		r.mgate.releaseAll()
 		r.cgate.releaseAll()
@@ -871,14 +933,57 @@ func concRunOnce(cc *concCase) concObs {
 			result = &res
 		case <-time.After(watchdog):
 		}
-		obs.res = "hang"
-	} else if result.panicked {
-		obs.res = "panic"
-	} else {
-		obs.res = concErrClass(result.err)
+		return "hang"
 	}
+	if result.panicked {
+		return "panic"
+	}
+	return concErrClass(result.err)
+}
+
+func concRunOnce(cc *concCase) concObs {
+	if concHangs.Load() >= concMaxHangs {
+		return concObs{res: "hang", hang: "skipped-after-hangs", flags: "-", plog: "-"}
+	}
+	base := concScan(nil) // goroutines left over by earlier cases (only after a reported leak) are ignored
+	r := &concRun{cc: cc, log: &concLog{}, mgate: newConcGate(), cgate: newConcGate(), ignore: base.ids}
+	r.src = &concProbe{n: cc.n, log: r.log, parkAt: cc.park, errAt: cc.se, yield: cc.yield}
+	if cc.sg {
+		r.src.gate = newConcGate()
+	}
+	root, rootCancel := context.WithCancel(context.Background())
+	defer rootCancel()
+
+	var obs concObs
+	var classes []string
+	for i := 0; i < cc.rep; i++ {
+		if cc.lastfull && i == cc.rep-1 && cc.rep > 1 {
+			// the final materialisation is a plain complete run of the same stream value
+			full := *cc
+			full.limit, full.first, full.cf, full.mf, full.mp, full.se, full.park, full.cancel = 0, false, 0, -1, -1, -1, -1, -1
+			r.cc = &full
+			r.src.parkAt, r.src.errAt = -1, -1
+			r.mu.Lock()
+			r.lastFrom = len(r.deliv)
+			r.mu.Unlock()
+		}
+		cl := r.materialise(root, rootCancel, &obs)
+		classes = append(classes, cl)
+		if cl == "hang" {
+			break
+		}
+		if i+1 < cc.rep {
+			// the next materialisation starts when the previous one has wound down
+			if left := concQuiesce(r.ignore, time.Second); left > 0 {
+				obs.leak += left
+			}
+			obs.trace = append(obs.trace, "|")
+			r.log.add("|")
+		}
+	}
+	obs.res = strings.Join(classes, "/")
 	// after the terminal returned nothing more is released: whatever the library started must exit by itself
-	obs.leak = concQuiesce(r.ignore, time.Second)
+	obs.leak += concQuiesce(r.ignore, time.Second)
 	if obs.leak > 0 {
 		rootCancel()
 		r.mgate.releaseAll()
@@ -890,6 +995,11 @@ func concRunOnce(cc *concCase) concObs {
 	}
 	r.mu.Lock()
 	obs.deliv = append([]int(nil), r.deliv...)
+	if cc.lastfull && cc.rep > 1 {
+		obs.lastdel = append([]int(nil), r.deliv[r.lastFrom:]...)
+		sort.Ints(obs.lastdel)
+		obs.hasLast = true
+	}
 	r.mu.Unlock()
 	sort.Ints(obs.deliv)
 	obs.maxIn, obs.calls = r.mgate.stats()
